@@ -4374,7 +4374,7 @@ func (p *Prog) queryDecisionBasis() []Ob {
 				}
 			}
 		}
-		ob := Ob{Rule: "R36", Inst: "f:positions-are-opaque", Props: []string{"C10", "C03"}, Pos: "-", Nontrivial: true}
+		ob := Ob{Rule: "R36", Inst: "f:positions-are-opaque", Props: []string{"C10", "C03", "C04"}, Pos: "-", Nontrivial: true}
 		if len(bad) > 0 {
 			ob.Pos = strings.SplitN(bad[0], ": ", 2)[0]
 			ob.Status, ob.Msg, ob.Path = Violated, "a byte position handed out by an index is given a meaning of its own ('the first record starts at N'): the formats differ in where the first record starts", uniqSorted(bad)
